@@ -1,7 +1,8 @@
 """C20  Grid equality distinguishes any difference in coordinates or connectivity.
 
 Decided: boolean abstraction of Grid.__eq__ (truth table over its comparison atoms) and the
-negation structure of Grid.__ne__.  Assumed: DataArray.equals is value/shape equality."""
+negation structure of Grid.__ne__.  Assumed: DataArray.equals is value/shape equality.
+Grid.copy hands the constructor the grid's own source_grid_spec (the one compared field that is not an array)."""
 
 from __future__ import annotations
 
